@@ -197,8 +197,8 @@ def foreign_body(case):
 
 def plan(tier):
     if tier == "quick":
-        return ([{"name": "rt%d" % i, "type": "rt", "n": 60, "depth": 3} for i in range(11)] +
-                [{"name": "foreign%d" % i, "type": "foreign", "n": 50, "depth": 2} for i in range(5)])
+        return ([{"name": "rt%d" % i, "type": "rt", "n": 160, "depth": 3} for i in range(11)] +
+                [{"name": "foreign%d" % i, "type": "foreign", "n": 120, "depth": 2} for i in range(5)])
     return ([{"name": "rt%d" % i, "type": "rt", "n": 3000, "depth": 4} for i in range(11)] +
             [{"name": "foreign%d" % i, "type": "foreign", "n": 2500, "depth": 3} for i in range(5)])
 
